@@ -14,7 +14,7 @@ CFG = ("INIT HInit\nNEXT HNext\nCONSTRAINT HCon\nCONSTANTS\n Keys <- MCKeys\n"
        " TempVers <- MCTempVers\n Feats <- MCFeats\n MaxDepth = {d}\n"
        "CHECK_DEADLOCK FALSE\n")
 FEATS = ("emodulus", "time", "fl1_max_ctc", "area_ratio", "verif_plug_area",
-         "verif_plug_time")
+         "verif_plug_time", "ml_class")
 # which features an observation reads, and in which order, is free (a read
 # returns Fresh whatever was read before): chosen per history
 COMPUTED_AREA = [False]     # variant: area_um computed from area_cvx
@@ -59,6 +59,17 @@ def base_data():
 
 
 TEMP = {1: np.linspace(21, 24, N), 2: np.linspace(27, 33, N)}
+# the temporary features come as a set: the temperature and two ML scores
+# (version 2 swaps the scores, so the ML class of every event changes)
+ML = {1: (np.linspace(0.9, 0.6, N), np.linspace(0.1, 0.4, N)),
+      2: (np.linspace(0.1, 0.4, N), np.linspace(0.9, 0.6, N))}
+
+
+def set_temp_features(ds, ver):
+    import dclab
+    ds._usertemp["temp"] = TEMP[ver]
+    dclab.set_temporary_feature(ds, "ml_score_abc", ML[ver][0])
+    dclab.set_temporary_feature(ds, "ml_score_xyz", ML[ver][1])
 
 
 def apply_state(ds, cfg, temp):
@@ -70,8 +81,7 @@ def apply_state(ds, cfg, temp):
         else:
             ds.config[sec][key] = conv(val)
     if temp:
-        dclab.set_temporary_feature(ds, "temp", TEMP[temp]) \
-            if False else ds._usertemp.__setitem__("temp", TEMP[temp])
+        set_temp_features(ds, temp)
     else:
         ds._usertemp.pop("temp", None)
 
@@ -172,7 +182,7 @@ def _replay(job):
             ds.config[sec].pop(key)
         else:
             steps.append("settemp %s" % st["ver"])
-            ds._usertemp["temp"] = TEMP[st["ver"]]
+            set_temp_features(ds, st["ver"])
         if not state["observe"]:
             continue
         for f in order:
